@@ -21,6 +21,7 @@ RULE = ('statements = generated SELECTs (expressions, every join kind, derived t
 RULE += "; also: chains of 2-4 set operations over a non-unique column, trailing ORDER BY .. LIMIT after a set operation, CTE interaction shapes, aliases without AS, LIMIT 0 / beyond the row count, equal-valued int/float literals; MySQL output is read with MySQL's literal rule"
 ASSUMPTIONS = ['sqlite3 3.40 is the reference engine; the original text is itself executable on it',
                '`/` is generated only with a REAL operand (SQLAlchemy renders true division; integer division is dialect-defined)',
+               'real numbers are compared to 12 significant digits (a rendering may re-associate a chain of one associative operator: same value in SQL arithmetic, another last bit in binary floating point)',
                'FOR UPDATE and other non-row-level differences are not judged; unsupported shapes (NotImplementedError/SQLAlchemyError) are C17\'s business']
 BUDGET = {'quick': (8, 270), 'thorough': (16, 1800)}
 TARGETS = ('sqlite', 'mysql', 'postgresql')
@@ -35,8 +36,18 @@ def ceilings(tier):
     return {'unsupported:*': 0.07, 'not_executable_here:*': 0.03}
 
 
+def _fl(x):
+    # real numbers are compared to 12 significant digits: a rendering may drop the parentheses of `a * (b * c)` (the same value in
+    # SQL's arithmetic, another last bit in binary floating point) - an ASSUMPTION of the check, listed below
+    return float('%.12g' % x) if isinstance(x, float) and x == x and abs(x) != float('inf') else x
+
+
+def near(rows):
+    return [tuple(_fl(x) for x in row) for row in rows]
+
+
 def norm_rows(rows):
-    return sorted(rows, key=repr)
+    return sorted(near(rows), key=repr)
 
 
 def run_sql(state, text):
@@ -342,7 +353,7 @@ def run_shard(ctx):
                     ra, rb = a[2], b[2]
                     if ordered:
                         acc.count('ordered_compared')
-                        if ra != rb:
+                        if near(ra) != near(rb):
                             diff = 'rows-or-order-differ' if norm_rows(ra) == norm_rows(rb) else 'rows-differ'
                             if diff == 'rows-or-order-differ':
                                 diff = 'order-differs'
